@@ -33,7 +33,7 @@ def run(ctx):
     ok, binp, log = V.build_harness("c15")
     if not ok:
         ctx.broken_build("harness-build(-tags verif) against current /repo tree", log)
-    nrand = 400 if ctx.tier == "quick" else 6000
+    nrand = 800 if ctx.tier == "quick" else 6000
     stats, cases = {}, []
     res = {r: [] for r in RESULTS}
     evaluated = False
@@ -66,7 +66,7 @@ def run(ctx):
     # output (and not only because of a zero-valued scalar, F28): one VIOLATION per clause
     clauses = [
         (bad_env, "holds_env (coq/theories/Merge/Check.v)",
-         "environment: an entry of an earlier file whose key no later file sets is missing or altered, or a later entry did not win"),
+         "environment: an entry of an earlier file whose key no later file sets is missing or altered, a later entry did not win, or an overridden / foreign entry is present"),
         (bad_nz, "holds_struct false (coq/theories/Merge/Check.v)",
          "options / maps / lists / nested records / process set: the merged value is not 'last file that sets it wins, everything else unchanged'"),
         (bad_ext, "holds_extends (coq/theories/Merge/Check.v)",
